@@ -277,7 +277,8 @@ def cfg_list(cfg, hk=None):
     c = dict(DEFAULT_CFG)
     c.update(cfg)
     t = lambda n: TAGS.get({"Exception": "Exception"}.get(n, n), 4)
-    return [c["tcp"], c["naddr"], c["nodelay"], c["tls"], c["keepalive"], c["ignore_exc"], c["prefix"], c["default_noreply"],
+    prefix = c["prefix"].encode("ascii") if isinstance(c["prefix"], str) else c["prefix"]      # a str prefix is encoded by the constructors
+    return [c["tcp"], c["naddr"], c["nodelay"], c["tls"], c["keepalive"], c["ignore_exc"], prefix, c["default_noreply"],
             c["unicode"], c["enc"], c["serde"], t(hk["_fetch_cmd"]), t(hk["_store_cmd"]), t(hk["_misc_cmd"])]
 
 
